@@ -7,8 +7,7 @@ def run(r):
                   "proof: Props/C05.lean — round trips of nodes, predicates (any ID, any anchor the format can write), every literal kind incl. blobs, "
                   "objects, whole triples and written/read graphs on the structural model, under the laws of the leaf codecs "
                   "(%q/Unquote, RFC3339Nano, %v/ParseFloat of float64, which are Go's: assumed inside stated domains — `timeOK`: four-digit year and whole-minute offset, `floatOK`: a number or Go's one NaN — and evaluated on Go itself on every run by `bwh leaflaws`; shown satisfiable by a toy "
-                  "codec); the graph theorem needs 'no line feed in a printed triple', which is the known finding D06. Tie: `text` runs — generated values of the documented domain (node types as paths, IDs "
-                  "and predicate IDs without white space but with quotes, brackets, backslashes, non-ASCII and the separators "
+                  "codec); the graph theorem needs 'no line feed in a printed triple', which is the known finding D06. Tie: `text` runs — generated values of the documented domain (node types as paths, node IDs without white space, predicate IDs with quotes, spaces and `] /` inside, brackets, backslashes, non-ASCII and the separators "
                   "themselves; anchors in five zones from year 1 to 9999 with nanoseconds; int64 extremes, float64 -0/±Inf/"
                   "subnormal/random bits, texts with any byte incl. separators and line feeds, blobs, predicate objects) printed by "
                   "Go and by the model (W), the printed text parsed by Go and by the model (X) and required to give back an equal "
